@@ -70,6 +70,27 @@ def run(m: Model, r: Report, tier: str) -> None:
     ssrc = ast.unparse(sh.node)
     r.check("urlparse(f'//{hostport}')" in ssrc and "url.hostname" in ssrc and "url.port" in ssrc and "ipaddress.ip_address(hostport)" in ssrc, "R2",
             f"{sh.qualname}#inverse", "split_host_port must parse bracketed hosts through urlparse and bare IP literals through ipaddress", loc=sh.loc)
+    # port 0 is a port: "is the port present" must be decided with `is None`, never by truthiness
+    def _truthy_port_tests(fn) -> list[str]:
+        out_ = []
+        for n in ast.walk(fn.node):
+            tests = [n.test] if isinstance(n, (ast.If, ast.IfExp, ast.While)) else (n.values if isinstance(n, ast.BoolOp) else [])
+            for t in tests:
+                inner = t.operand if isinstance(t, ast.UnaryOp) and isinstance(t.op, ast.Not) else t
+                if isinstance(inner, (ast.Name, ast.Attribute)) and ast.unparse(inner).split(".")[-1] == "port":
+                    out_.append(f"line {n.lineno}: `{ast.unparse(t)}`")
+        return out_
+    tu_ = m.require_class(f"{BASE}.TargetURI")
+    for fn_ in [sh, m.require_function(f"{BASE}.TargetURI.from_parts")] + ([tu_.methods["port"]] if "port" in tu_.methods else []):
+        tp_ = _truthy_port_tests(fn_)
+        r.check(not tp_, "R2", f"{fn_.qualname}#port-zero", f"the port is tested by truthiness ({tp_}): port 0 is treated as 'no port' and replaced by the default, so host:0 does not "
+                "split / parse back to port 0", loc=fn_.loc)
+    pt = tu_.methods.get("port")
+    if pt is not None:
+        rets_p = [ast.unparse(n.value) for n in walk_no_nested(pt.node) if isinstance(n, ast.Return) and n.value is not None]
+        helper_calls = [ast.unparse(n.func) for n in ast.walk(pt.node) if isinstance(n, ast.Call)]
+        r.check(rets_p == ["self.url.port"] or not helper_calls, "R1", f"{pt.qualname}#direct", f"TargetURI.port returns {rets_p} via {helper_calls}: it must be the parsed URL's own port "
+                "(helpers with default-port semantics cannot tell port 0 from no port)", loc=pt.loc)
     fp = m.require_function(f"{BASE}.TargetURI.from_parts")
     src = ast.unparse(fp.node)
     enc = [n for n in ast.walk(fp.node) if isinstance(n, ast.Call) and ast.unparse(n.func) == "urlencode"]
@@ -179,6 +200,20 @@ def run(m: Model, r: Report, tier: str) -> None:
         return outer, inner
     r.check(delimiters(un) == (",", "-"), "R5", f"{un.qualname}#delimiters", f"delimiters {delimiters(un)}", loc=un.loc)
     rng = [n for n in ast.walk(un.node) if isinstance(n, ast.Call) and ast.unparse(n.func) == "range"]
+    # every parsed range reaches the expansion loop: nothing between parsing the bounds and the loop skips the element (a-a is {a})
+    from sa.cfg import CFG as _CFG
+    gu = _CFG(un.node)
+    outer_for = [n for n in walk_no_nested(un.node) if isinstance(n, ast.For) and isinstance(n.iter, ast.Call) and isinstance(n.iter.func, ast.Attribute) and n.iter.func.attr == "split"]
+    inner_for = [n for n in ast.walk(un.node) if isinstance(n, ast.For) and rng and any(x is rng[0] for x in ast.walk(n.iter))]
+    if len(outer_for) == 1 and len(inner_for) == 1:
+        oh = {n.id for n in gu.nodes.values() if n.kind == "loop" and n.ast is outer_for[0]}
+        ih = {n.id for n in gu.nodes.values() if n.kind == "loop" and n.ast is inner_for[0]}
+        blk = next((b_ for a_ in ast.walk(outer_for[0]) for b_ in (getattr(a_, "body", None), getattr(a_, "orelse", None)) if isinstance(b_, list) and inner_for[0] in b_), [])
+        same_block = [st for st in blk[:blk.index(inner_for[0])] if isinstance(st, ast.Assign) and "auto_int(" in ast.unparse(st.value)] if blk else []
+        bounds = [n.id for n in gu.nodes.values() if n.kind == "stmt" and any(n.ast is st for st in same_block)]
+        okr_ = bool(bounds) and all(gu.must_pass(b_, ih, oh | {gu.exit_return}, skip_edge=lambda n, b, k: k == "exc")[0] for b_ in bounds)
+        r.check(okr_, "R5", f"{un.qualname}#range-always-expanded",
+                "after the bounds of `a-b` are parsed the element can be skipped before the expansion loop (e.g. a guard against 'empty' ranges that also drops a-a)", loc=un.loc)
     r.check(len(rng) == 1 and m.mtext(un, rng[0]).replace(" ", "") == "range(_L,_L+1)", "R5", f"{un.qualname}#inclusive",
             f"range elements come from `{ast.unparse(rng[0]) if rng else None}`; 'a-b' includes b", loc=un.loc)
     r.check(m.has(un, "sorted(result)") and m.has(un, "result = set()") and us.count("auto_int(") == 3, "R5", f"{un.qualname}#sorted-union",
